@@ -11,7 +11,7 @@ pub fn props() -> Vec<Prop> {
         id: "C05",
         run: c05,
         tools: Some(no_io_trace),
-        rule: "oracle 1: Memfs::abs under every cwd of a bounded tree and Stdfs::abs under the matching process cwd are compared with a string-level reference (expand, trim protocol, Go-clean, resolve leading '..' against the cwd) for every string up to length 6 (quick) / 7 (thorough) over {/ . ~ $ : a e-acute}, scheme-prefixed variants and seeded random longer strings, with HOME in {/h, /h/e-acute, /} (one value per worker process); the result must be absolute, free of '.', '..', '//' and trailing '/', idempotent, and equal on both backends. oracle 2 (spelling independence): for prepared states x every path-taking method x every spelling of the argument (relative to the cwd, ./x, x/, x/., doubled separator, x/../x, file://, ~, $HOME, ${HOME}) the call on one instance and the call with abs(argument) on an identical instance must give equal results and equal complete states - Memfs through the hook snapshot, Stdfs through the disk observer. oracle 3 (no IO): strace -e trace=%file of a child that brackets 10^4 abs() calls per backend between marker syscalls; nothing may appear between the markers. distinct_nontrivial = distinct (backend, cwd, string class, outcome class) tuples + (method, spelling kind).",
+        rule: "oracle 1: Memfs::abs under every cwd of a bounded tree and Stdfs::abs under the matching process cwd are compared with a string-level reference (expand, trim protocol, Go-clean, resolve leading '..' against the cwd) for every string up to length 6 (quick) / 8 (thorough) over {/ . ~ $ : a e-acute}, scheme-prefixed variants and seeded random longer strings, with HOME in {/h, /h/e-acute, /} (one value per worker process); the result must be absolute, free of '.', '..', '//' and trailing '/', idempotent, and equal on both backends. oracle 2 (spelling independence): for prepared states x every path-taking method x every spelling of the argument (relative to the cwd, ./x, x/, x/., doubled separator, x/../x, file://, ~, $HOME, ${HOME}) the call on one instance and the call with abs(argument) on an identical instance must give equal results and equal complete states - Memfs through the hook snapshot, Stdfs through the disk observer. oracle 3 (no IO): strace -e trace=%file of a child that brackets 10^4 abs() calls per backend between marker syscalls; nothing may appear between the markers. distinct_nontrivial = distinct (backend, cwd, string class, outcome class) tuples + (method, spelling kind).",
         assumptions: &["non-UTF-8 paths are outside 'every non-empty path string'", "strings whose variable name is not delimited unambiguously are not judged", "'no IO' is decided on the syscall trace of the workload that ran"],
         shards_quick: 8,
         shards_thorough: 16,
@@ -69,7 +69,7 @@ fn c05_strings(ctx: &Ctx, rep: &mut Report, home: &str, sroot: &str) {
         let _ = mem.mkdir_p(c);
         cwds.push((c.to_string(), real));
     }
-    let max = if ctx.thorough { 7 } else { 6 };
+    let max = if ctx.thorough { 8 } else { 6 };
     let alpha = ["/", ".", "~", "$", ":", "a", "é"];
     let mut check = |s: &str, rep: &mut Report| {
         for (ci, (vc, real)) in cwds.iter().enumerate() {
@@ -146,7 +146,7 @@ fn c05_strings(ctx: &Ctx, rep: &mut Report, home: &str, sroot: &str) {
     // every path of up to 6 (quick) / 7 (thorough) components from {.., ., a, e-acute, empty}, relative and rooted:
     // the shapes clean() has to get right ("../a/../..", "a/./../../b", "/../a/..") are all in here
     let comps = ["..", ".", "a", "é", ""];
-    let cmax = if ctx.thorough { 7 } else { 6 };
+    let cmax = if ctx.thorough { 8 } else { 6 };
     let mut cidx = 0u64;
     for_all_strings(&["0", "1", "2", "3", "4"], cmax, |_, code| {
         cidx += 1;
@@ -162,7 +162,7 @@ fn c05_strings(ctx: &Ctx, rep: &mut Report, home: &str, sroot: &str) {
     });
     let toks = ["/", ".", "..", "~", "~/", "$HOME", "${HOME}", "$", "a", "é", "b c", "//", "file://", "€😀"];
     let mut rng = ctx.rng("c05-random");
-    for _ in 0..(if ctx.thorough { 200_000 } else { 20_000 } / ctx.shards) {
+    for _ in 0..(if ctx.thorough { 2_000_000 } else { 20_000 } / ctx.shards) {
         let mut s = String::new();
         for _ in 0..1 + rng.below(9) {
             s.push_str(toks[rng.below(toks.len())]);
